@@ -204,6 +204,8 @@ def main():
         shutil.rmtree(wd, ignore_errors=True)
     for fn, want, v in bad:
         print("selftest: %s expected %s, got %s" % (fn, "all discharged" if want else "a failing obligation", v))
+    from . import lib as _lib
+    _lib.dump_shapes()       # only when PYVC_RECORD_SHAPES is set (maintenance of pyvc/callshapes.json)
     print("selftest: %d cases, %d wrong -> %s" % (len(CASES), len(bad), "ok" if not bad else "FAILED"))
     return 0 if not bad else 1
 
